@@ -162,8 +162,7 @@ package fiber
 //@   ensures not-a-named-parameter: len(param) == 0 || param[0] != ':' ==> result == param
 //@   ensures named: len(param) > 0 && param[0] == ':' ==> result == param[1:len(param) - ite(param[len(param)-1] == '?', 1, 0)]
 
-//@ func getParamConstraintType
-//@   pure
+// (getParamConstraintType: zz_contracts_c02_verif.go)
 // (the constraint-aware end-of-name search belongs to the constraint sub-syntax, property C02: only its range matters here)
 //@ func findNextCharsetPositionConstraint
 //@   pure
@@ -194,7 +193,10 @@ package fiber
 //@   assumes end-chars-table: endCharsTable() && delimiterCharsTable()
 //@   requires at-start-char: len(pattern) >= 1 && isStartChar(pattern[0])
 //@   modifies parser.wildCardCount, parser.plusCount, heap(E_string), heap(E_p_fiber_Constraint)
+//@   loop 1
+//@     invariant [C02] constraints-so-far: forall(j, 0, len(constraints), parsedConstraint(constraints[j], customConstraints))
 //@   ensures consumed: 1 <= result0 && result0 <= len(pattern)
+//@   ensures [C02] constraints-fit-their-names: forall(j, 0, len(result1.Constraints), parsedConstraint(result1.Constraints[j], customConstraints))
 //@   ensures parameter-segment: result1 != nil && result1.IsParam && result1.Length == 0 && result1.Const == "" && !result1.IsLast &&
 //@ ..     !result1.HasOptionalSlash && result1.ComparePart == "" && result1.PartCount == 0
 //@   ensures new-object: !old(allocated(result1))
@@ -232,6 +234,8 @@ package fiber
 //@     invariant carried-literal-has-no-escape: i + 1 < len(segs) && !segs[i+1].IsParam && noEscape(segs[i+1].Const) ==> noEscape(comparePart)
 //@     invariant compare-part-is-next-literal: forall(k, i + 1, len(segs) - 1, segs[k].IsParam && !segs[k+1].IsParam && noEscape(segs[k+1].Const) ==> searchPart(segs[k+1].Const, segs[k].ComparePart))
 //@     invariant last-parameter-compares-nothing: i < len(segs) - 1 && segs[len(segs)-1].IsParam ==> segs[len(segs)-1].ComparePart == ""
+//@     invariant carried-to-parameter: i + 1 < len(segs) && segs[i+1].IsParam ==> segs[i+1].ComparePart == unescaped(comparePart)
+//@     invariant adjacent-parameters-share-compare-part: forall(k, i + 1, len(segs) - 1, segs[k].IsParam && segs[k+1].IsParam ==> segs[k].ComparePart == segs[k+1].ComparePart)
 //@     decreases i + 1
 //@   loop 2
 //@     invariant index: 0 <= i && i <= len(segs)
@@ -254,6 +258,8 @@ package fiber
 //@   ensures optional-slash: forall(k, 0, len(segs), segs[k].HasOptionalSlash <==> (old(segs[k].HasOptionalSlash) || (!segs[k].IsParam && slashOptional(segs, k))))
 //@   ensures compare-part-is-next-literal: forall(k, 0, len(segs) - 1, segs[k].IsParam && !segs[k+1].IsParam && noEscape(segs[k+1].Const) ==> searchPart(segs[k+1].Const, segs[k].ComparePart))
 //@   ensures last-parameter-compares-nothing: len(segs) > 0 && segs[len(segs)-1].IsParam ==> segs[len(segs)-1].ComparePart == ""
+// parameters that follow each other search for the same literal (the next one in the pattern)
+//@   ensures adjacent-parameters-share-compare-part: forall(k, 0, len(segs) - 1, segs[k].IsParam && segs[k+1].IsParam ==> segs[k].ComparePart == segs[k+1].ComparePart)
 //@   ensures part-count-of-final-literal: forall(k, 0, len(segs), segs[k].IsParam && segs[k].ComparePart != "" && k + 2 == len(segs) && !segs[k+1].IsParam ==>
 //@ ..      segs[k].PartCount == old(segs[k].PartCount) + strCount(segs[k+1].Const, segs[k].ComparePart))
 
@@ -261,14 +267,14 @@ package fiber
 // parseRoute establishes the well-formedness that the matcher (getMatch, findParamLen, Route.match) assumes
 // ---------------------------------------------------------------------------------------------
 
-// pcount (C02 block) is the number of parameter segments before a position: this is its defining recurrence.
-//@ macro pcountDef(p) = (pcount(p, 0) == 0 && forall(sd, 0, len(p.segs), pcount(p, sd + 1) == pcount(p, sd) + ite(p.segs[sd].IsParam, 1, 0)))
+// pcount/isParamAt/flagsNamed/pcountMonotone/wfSegs: C02 block of zz_contracts_verif.go.
 //@ fn paramCount(pattern string) int
-//@ macro pcountMonotone(p) = forallI(ma, forallI(mb, 0 <= ma && ma <= mb && mb <= len(p.segs) ==> pcount(p, ma) <= pcount(p, mb)))
 // a segment as the two analyse functions leave it
 //@ macro rawSegment(g) = (g != nil && allocated(g) && !g.IsLast && !g.HasOptionalSlash && g.ComparePart == "" && g.PartCount == 0 &&
 //@ ..   (!g.IsParam ==> g.Length == len(g.Const) && g.Length >= 1 && noEscape(g.Const)) && (g.IsParam ==> g.Length == 0))
 
+// the first segment is a literal whose text is the unescaped text of a (non-empty) prefix of the pattern
+//@ macro leadingLiteralOf(segs, pat) = (len(segs) > 0 && !segs[0].IsParam && exists(ln, 1, len(pat) + 1, segs[0].Const == unescaped(pat[:ln])))
 // A pattern whose last byte is an escape character has a literal part without any literal byte ("/:a\"): the
 // segment would be empty and addParameterMetaInfo indexes Const[-1].
 //@ func (*routeParser).parseRoute
@@ -281,22 +287,26 @@ package fiber
 //@     invariant no-dangling-escape: old(len(pattern) == 0 || pattern[len(pattern)-1] != '\\') ==> len(pattern) == 0 || pattern[len(pattern)-1] != '\\'
 //@     invariant raw-segments: forall(k, 0, len(parser.segs), rawSegment(parser.segs[k]))
 //@     invariant segments-distinct: forallI(a, forallI(b, 0 <= a && a < b && b < len(parser.segs) ==> parser.segs[a] != parser.segs[b]))
-//@     invariant one-name-per-parameter: len(parser.params) <= len(parser.segs) && (pcountDef(parser) ==> pcount(parser, len(parser.segs)) == len(parser.params) && pcountMonotone(parser))
+//@     invariant one-name-per-parameter: len(parser.params) <= len(parser.segs) && forallI(key, pcountDefK(key, parser.segs) ==> pcountK(key, len(parser.segs)) == len(parser.params) && pcountMonotoneK(key, len(parser.segs)))
 //@     invariant leading-slash-literal: len(parser.segs) > 0 && len(old(pattern)) > 0 && old(pattern)[0] == '/' ==> !parser.segs[0].IsParam && parser.segs[0].Const[0] == '/'
+//@     invariant leading-literal-text: len(parser.segs) > 0 && len(old(pattern)) > 0 && old(pattern)[0] == '/' ==> leadingLiteralOf(parser.segs, old(pattern))
 //@     decreases len(pattern)
 //@   ensures segments-well-formed: forall(k, 0, len(parser.segs), parser.segs[k] != nil && (!parser.segs[k].IsParam ==> parser.segs[k].Length == len(parser.segs[k].Const) && parser.segs[k].Length >= 1) &&
 //@ ..     (parser.segs[k].IsParam ==> parser.segs[k].Length == ite(oneByteParam(parser.segs, k), 1, 0)))
 // Definitions (assumed at call sites, not proof obligations): pcount counts the parameter segments of THIS parse, and
 // paramCount(pattern) names how many parameters the pattern has (the parse is a function of the pattern text).
-//@   trusted ensures pcountDef(parser) && len(parser.params) == paramCount(pattern)
-//@   ensures one-name-per-parameter: pcountDef(parser) ==> pcount(parser, len(parser.segs)) == len(parser.params) && pcountMonotone(parser)
-//@   ensures establishes-matcher-precondition: pcountDef(parser) && len(parser.params) <= maxParams ==> wfParser(parser)
+//@   trusted ensures pcountDef(parser.segs) && len(parser.params) == paramCount(pattern)
+//@   ensures one-name-per-parameter: pcountDef(parser.segs) ==> pcount(parser.segs, len(parser.segs)) == len(parser.params) && pcountMonotone(parser.segs)
 //@   ensures last-flag-on-last-segment-only: forall(k, 0, len(parser.segs), parser.segs[k].IsLast <==> k == len(parser.segs) - 1)
 //@   ensures optional-slash-iff-slash-may-be-missing: forall(k, 0, len(parser.segs), parser.segs[k].HasOptionalSlash <==> (!parser.segs[k].IsParam && slashOptional(parser.segs, k)))
 //@   ensures compare-part-is-next-literal: forall(k, 0, len(parser.segs) - 1, parser.segs[k].IsParam && !parser.segs[k+1].IsParam ==> searchPart(parser.segs[k+1].Const, parser.segs[k].ComparePart))
 //@   ensures last-parameter-compares-nothing: len(parser.segs) > 0 && parser.segs[len(parser.segs)-1].IsParam ==> parser.segs[len(parser.segs)-1].ComparePart == ""
+//@   ensures adjacent-parameters-share-compare-part: forall(k, 0, len(parser.segs) - 1, parser.segs[k].IsParam && parser.segs[k+1].IsParam ==> parser.segs[k].ComparePart == parser.segs[k+1].ComparePart)
 //@   ensures leading-slash-literal: len(pattern) > 0 && pattern[0] == '/' ==> len(parser.segs) > 0 && !parser.segs[0].IsParam && parser.segs[0].Const[0] == '/'
+//@   ensures leading-literal-text: len(pattern) > 0 && pattern[0] == '/' ==> leadingLiteralOf(parser.segs, pattern)
 //@   ensures empty-pattern-no-segments: len(pattern) == 0 ==> len(parser.segs) == 0
+// (last: the clauses above are its parts)
+//@   ensures establishes-matcher-precondition: pcountDef(parser.segs) && len(parser.params) <= maxParams ==> wfParser(parser)
 
 // The parser value that registration stores in the route. segsOf/paramsOf name the outcome of parsing a pattern
 // (the parse is a deterministic function of the pattern text).
@@ -313,7 +323,12 @@ package fiber
 //@   ensures optional-slash-iff-slash-may-be-missing: forall(k, 0, len(result.segs), result.segs[k].HasOptionalSlash <==> (!result.segs[k].IsParam && slashOptional(result.segs, k)))
 //@   ensures compare-part-is-next-literal: forall(k, 0, len(result.segs) - 1, result.segs[k].IsParam && !result.segs[k+1].IsParam ==> searchPart(result.segs[k+1].Const, result.segs[k].ComparePart))
 //@   ensures last-parameter-compares-nothing: len(result.segs) > 0 && result.segs[len(result.segs)-1].IsParam ==> result.segs[len(result.segs)-1].ComparePart == ""
+//@   ensures adjacent-parameters-share-compare-part: forall(k, 0, len(result.segs) - 1, result.segs[k].IsParam && result.segs[k+1].IsParam ==> result.segs[k].ComparePart == result.segs[k+1].ComparePart)
 //@   ensures leading-slash-literal: len(pattern) > 0 && pattern[0] == '/' ==> len(result.segs) > 0 && !result.segs[0].IsParam && result.segs[0].Const[0] == '/'
+// the matcher's precondition for the parser VALUE that registration stores in the route (pcount is keyed on the slice value)
+//@   ensures count-is-the-prefix-count: pcountDef(result.segs) && pcountMonotone(result.segs)
+//@   ensures one-name-per-parameter: pcount(result.segs, len(result.segs)) == len(result.params) && len(result.params) == paramCount(pattern)
+//@   ensures establishes-matcher-precondition: len(result.params) <= maxParams ==> wfSegs(result.segs)
 
 // ---------------------------------------------------------------------------------------------
 // Registration and RoutePatternMatch normalise the pattern the same way
@@ -353,6 +368,7 @@ package fiber
 //@   atcall (*App).addRoute: parser-of-pretty-path: arg2.routeParser.segs == segsOf(pathPretty, epoch)
 //@   atcall (*App).addRoute: literal-path-unescaped-pretty: arg2.path == unescaped(pathPretty)
 //@   atcall (*App).addRoute: names-of-raw-path: arg2.Params == paramsOf(pathRaw, epoch)
+//@   atcall (*App).addRoute: parser-well-formed: paramCount(pathPretty) <= maxParams ==> wfParser(arg2.routeParser)
 //@   atcall (*App).addRoute: star-flag: arg2.star == (arg2.path == "/*")
 //@   atcall (*App).addRoute: root-flag: arg2.root == (arg2.path == "/")
 //@   atcall (*App).addRoute: use-flag: arg2.use == (arg2.Method == "USE")
@@ -381,6 +397,7 @@ package fiber
 //@ macro rpmPath0(p) = ite(len(p) == 0, "/", p)
 //@ macro rpmDecoded(p) = ite(called(@fasthttp.AppendUnquotedArg), unquoted(rpmPath0(p)), rpmPath0(p))
 //@ func RoutePatternMatch
+//@   props C03 C02
 //@   assumes special-character-tables: startCharsTable() && endCharsTable() && delimiterCharsTable()
 // a route pattern has at most maxParams parameters (the value array of the context has that many slots; more make
 // getMatch index out of range - observation recorded under C07, a precondition here)
@@ -391,9 +408,20 @@ package fiber
 // (intermediate fact, stated where it is cheap: right after the pattern bytes were folded)
 //@   atcall @utils.ToLower: pattern-folded-before-path: str(patternPretty) == lower(rooted(old(pattern)))
 //@   atcall (*routeParser).parseRoute: parses-the-pretty-pattern: arg1 == str(patternPretty)
+// (intermediate facts, stated where they are cheap - at the call that empties the parser, which every path passes: the local
+// pattern is the rooted pattern; the pretty pattern is a byte copy of it, folded and/or trimmed)
+//@   atcall (*routeParser).reset: pattern-rooted: pattern == rooted(old(pattern))
+//@   atcall (*routeParser).reset: pretty-of-rooted-when-not-folded: !called(@utils.ToLowerBytes) ==> sameOrTrimmed(pattern, str(patternPretty))
+//@   atcall (*routeParser).reset: pretty-of-rooted-when-folded: called(@utils.ToLowerBytes) ==> sameOrTrimmed(lower(pattern), str(patternPretty))
+// (the two cases of the next clause, stated first: each is decided quickly, the combined clause then follows by a case split)
+//@   atcall (*routeParser).parseRoute: normal-form-when-folded: called(@utils.ToLowerBytes) ==> sameOrTrimmed(lower(rooted(old(pattern))), str(patternPretty))
+//@   atcall (*routeParser).parseRoute: normal-form-when-not-folded: !called(@utils.ToLowerBytes) ==> sameOrTrimmed(rooted(old(pattern)), str(patternPretty))
 //@   atcall (*routeParser).parseRoute: pattern-in-normal-form: sameOrTrimmed(ite(called(@utils.ToLowerBytes), lower(rooted(old(pattern))), rooted(old(pattern))), str(patternPretty))
 //@   atcall (*routeParser).parseRoute: folded-iff-path-folded: called(@utils.ToLowerBytes) <==> called(@utils.ToLower)
 //@   atcall @utils.TrimRight: only-slashes-cut: cutset == '/'
+// the parser that decides was built from THIS call's normalised pattern: its leading literal is the unescaped text of a
+// prefix of that pattern (a parser kept from an earlier call was built for that call's configuration)
+//@   atcall (*routeParser).getMatch: parser-of-this-pattern: leadingLiteralOf(parser.segs, str(patternPretty))
 //@   atcall (*routeParser).getMatch: one-path-view: arg1 == arg2 && !arg4
 // as in Route.match: the parser decides parameterised patterns only; a pattern without parameters is compared as
 // text (the parser would accept a missing optional trailing slash that dispatch does not)
